@@ -51,7 +51,7 @@ def spec_oracle(pops, prop):
             h = (rec["idx"], rec["gen"])
             m = by_rev.setdefault((ing, rev), {})
             i = inv.setdefault((ing, rev), {})
-            if prop == "C08":
+            if prop in ("C08", "C07"):
                 if val in m and m[val] != h:
                     return "op %d: value %s interned twice in revision %d with handles %s and %s" % (oi, val, rev, m[val], h), None
                 if h in i and i[h] != val:
@@ -59,7 +59,7 @@ def spec_oracle(pops, prop):
             m[val] = h
             i[h] = val
             hist.setdefault((ing, val), []).append((rev, h))
-            if prop == "C09" and rec.get("path") == "reuse":
+            if prop in ("C09", "C07") and rec.get("path") == "reuse":
                 q = [int(x) for x in idf._lst(rec.get("queue", "[]"))]
                 if rec.get("dur_before") != "0":
                     return "op %d: reused a slot of durability %s" % (oi, rec.get("dur_before")), None
@@ -69,7 +69,7 @@ def spec_oracle(pops, prop):
                     return "op %d: reuse before the revision queue was primed (queue %s)" % (oi, q), None
                 if not int(rec.get("lia_before", "0")) < min(q):
                     return "op %d: reused a slot last interned at %s, not older than the oldest of the last active revisions %s" % (oi, rec.get("lia_before"), q), None
-        if prop == "C08":
+        if prop in ("C08", "C07"):
             for r in op["rets"]:
                 # RET idx gen read  (for `intern T V`: read-back of the field)
                 words = op["text"].split()
